@@ -24,6 +24,14 @@ def build(token, meta):
     from yowsup.layers.protocol_messages.protocolentities.attributes.attributes_location import LocationAttributes
     k = kind_of(token)
     tag = "tok%d" % token
+    # every other extended text / link / image is a REPLY: its context names the stanza answered and carries the quoted message (a message inside
+    # the message: the converter works on both while it builds the payload); the kind of a token stays what it was
+    ctx = None
+    if k in ("exttext", "url", "image") and (token // len(KINDS)) % 2 == 1:
+        from yowsup.layers.protocol_messages.protocolentities.attributes.attributes_context_info import ContextInfoAttributes
+        from yowsup.layers.protocol_messages.protocolentities.attributes.attributes_message import MessageAttributes
+        ctx = ContextInfoAttributes(stanza_id="Q%d" % token, participant="4915500009@s.whatsapp.net",
+                                    quoted_message=MessageAttributes(conversation=u"the words answered, quoted-%s" % tag))
     if k == "empty":
         return TextMessageProtocolEntity(u"", meta)
     if k == "text":
@@ -31,13 +39,13 @@ def build(token, meta):
     if k == "exttext":
         return ExtendedTextMessageProtocolEntity(
             ExtendedTextAttributes(u"see http://x.example/%s secret-%s" % (tag, tag), "http://x.example/" + tag, "http://x.example/c/" + tag,
-                                   "descr " + tag, "title " + tag, b"\xff\xd8thumb" + tag.encode(), None), meta)
+                                   "descr " + tag, "title " + tag, b"\xff\xd8thumb" + tag.encode(), ctx), meta)
     if k == "url":
         return ExtendedTextMediaMessageProtocolEntity(
             ExtendedTextAttributes(u"link http://y.example/%s secret-%s" % (tag, tag), "http://y.example/" + tag, "http://y.example/c/" + tag,
-                                   "d " + tag, "t " + tag, b"\xff\xd8th" + tag.encode(), None), meta)
+                                   "d " + tag, "t " + tag, b"\xff\xd8th" + tag.encode(), ctx), meta)
     if k == "image":
-        dl = DownloadableMediaMessageAttributes("image/jpeg", 1000 + token, bytes([token % 256]) * 32, "https://mmg.example/" + tag, bytes([(token + 1) % 256]) * 32)
+        dl = DownloadableMediaMessageAttributes("image/jpeg", 1000 + token, bytes([token % 256]) * 32, "https://mmg.example/" + tag, bytes([(token + 1) % 256]) * 32, ctx)
         return ImageDownloadableMediaMessageProtocolEntity(ImageAttributes(dl, 640 + token, 480, "caption secret-" + tag, b"\xff\xd8jpeg" + tag.encode()), meta)
     if k == "location":
         # (every third location lies on the equator / the prime meridian: coordinates that are exactly zero)
